@@ -1218,6 +1218,23 @@ pub fn enumerate(seed: u64, max_len: usize) -> Vec<Case> {
             }
         }
     }
+    // ---- the same with constant records (degenerate but valid: the standard error is exactly zero or
+    // a rounding residue; the count crosses the Student-t -> normal switch at 100 000)
+    for flt in [Flt::F32, Flt::F64] {
+        for &e in &[Entry::ArithHuge, Entry::GeoHuge, Entry::HarmHuge, Entry::PairedHuge, Entry::UnpairedHuge] {
+            for &c in &[1.0f64, 0.5, 3.0, 0.1, 1e-3, 4.35] {
+                for len in [2usize, 3] {
+                    for k in [0u64, 1, 15, 16, 17, 18, 33] {
+                        for &cf in &[18u8, 19, 20] {
+                            let a = vec![encf(flt, c); len];
+                            let b = if e == Entry::PairedHuge { vec![encf(flt, c * 0.5); len] } else { a.clone() };
+                            out.push(Case { entry: e, flt, a, b, n: k, k: 0, q: 0, conf: cf, style: 0, fault: "huge-population+constant".into(), pos: k as u32 });
+                        }
+                    }
+                }
+            }
+        }
+    }
     // ---- capacity boundary of ci_max_size (exactly CAP is legal, CAP + 1 is the documented panic)
     for flt in [Flt::F32, Flt::F64] {
         for (e, cap) in [(Entry::QuantMaxSize8, 8usize), (Entry::QuantMaxSize1024, 1024usize)] {
